@@ -20,7 +20,73 @@ def families(tier, seed):
             # the same meaning under an adaptive solver (plain matrices, scalar weights, coupling edges, gamma-kernel delays)
             if sd == seeds[0] and tag.split("-")[0] in ("P2", "P3", "P6", "P7", "P9"):
                 out.append(dict(tag=f"{tag}/s{sd}/scipy", features=dict(feats, solver="scipy"), kind="population", ps=ps, T=0.5, dt=0.01, solver="scipy"))
+    c16 = {t: ps_ for t, f, ps_ in gen.c16_cases(seeds[0])}
+    adaptive = dict(solver="scipy", method="RK45", rtol=1e-10, atol=1e-12)
+    for ptag in ("P1-single-pop-n3-signed-sparse", "P2-two-pops-nonsquare-signed"):
+        for T_, dts_ in ((1.0, 0.3), (0.7, 0.2)):          # simulation_time / sampling_step_size is not an integer: outputs are resampled
+            out.append(dict(tag=f"{ptag}/resampled-{T_}-{dts_}", features=dict(resampled=True), kind="differential", ps=c16[ptag], tol=1e-5,
+                            run_kw=dict(simulation_time=T_, step_size=0.01, sampling_step_size=dts_, **adaptive)))
+    for ptag in ("P7-coupling-edge-pre-and-post", "P7e-coupling-edge-uniform-matrix", "P2-two-pops-nonsquare-signed", "P3-scalar-weights-global-coupling"):
+        if ptag not in c16:
+            continue
+        for b in ("jax", "torch"):
+            if b == "torch" and ptag.startswith("P7"):
+                continue      # coupling-edge templates do not compile on the Torch backend at all (TypeError: expected Tensor ..., loud; a backend matter)
+            out.append(dict(tag=f"{ptag}/{b}", features=dict(backend=b), kind="differential", ps=c16[ptag], tol=1e-6,
+                            run_kw=dict(simulation_time=0.5, step_size=0.05, solver="euler", backend=b)))
     return out
+
+
+def differential_case(c):
+    """The population circuit and the explicit node-and-edge network, BOTH run through PyRates with the same settings, unit by unit:
+    resampled outputs of an adaptive run (simulation_time / sampling_step_size not an integer), and the JAX / Torch backends."""
+    import numpy as np
+    from rtc import oracle
+    ps = c["ps"]
+    explicit = oracle.population_to_explicit(ps)
+    kw = dict(c["run_kw"])
+    outs = {}
+    for pname, p in ps["pops"].items():
+        for o in p["ops"]:
+            for l, k, _ in ps["ops"][o]["eqs"]:
+                if k == "de":
+                    outs[f"{pname}.{o}.{l}"] = f"{pname}/{o}/{l}"
+    try:
+        tpl = oracle.build_population_circuit(ps)
+        df = tpl.run(outputs=dict(outs), verbose=False, clear=True, in_place=False, float_precision="float64", **kw)
+        oracle.clear_all_caches()
+        df2, outs2, _ = oracle.run_model(explicit, kw["simulation_time"], kw["step_size"], kw.get("sampling_step_size"), kw["solver"], False,
+                                         backend=kw.get("backend", "default"), clear=True,
+                                         **{k: v for k, v in kw.items() if k in ("method", "rtol", "atol")})
+    except NotImplementedError as exn:
+        return dict(status="ok", fails=[], detail=dict(refused=str(exn)[:80]))
+    except Exception as exn:
+        return dict(status="violated", fails=[dict(clause="population circuit and explicit network both run with these settings", observed=f"{type(exn).__name__}: {exn}")])
+    inv = {v: k for k, v in outs2.items()}
+    fails = []
+    cols = list(df.columns)
+    for key, path in outs.items():
+        pname, o, v = path.split("/")
+        n = ps["pops"][pname]["n"]
+        for i in range(n):
+            lab = [cc for cc in cols if (isinstance(cc, tuple) and cc[0] == key and cc[1] == i) or (n == 1 and cc == key)]
+            if len(lab) != 1:
+                return dict(status="violated", fails=[dict(clause="population output: one column per unit", var=f"{path}[{i}]", observed=[str(x) for x in cols][:8])])
+            got = np.asarray(df[lab[0]], dtype=float).ravel()
+            want = np.asarray(df2[inv[f"{pname}_{i}/{o}/{v}"]], dtype=float).reshape(len(df2.index), -1)[:, 0]
+            if got.shape != want.shape or not np.allclose(got, want, rtol=c.get("tol", 1e-6), atol=c.get("tol", 1e-6) * 1e-2):
+                bad = int(np.argmax(np.abs(got - want))) if got.shape == want.shape else -1
+                fails.append(dict(clause="population unit equals the explicit network's node (both run through PyRates with the same settings)",
+                                  var=f"{pname}_{i}/{o}/{v}", row=bad, observed=float(got[bad]) if bad >= 0 else list(got.shape),
+                                  expected=float(want[bad]) if bad >= 0 else list(want.shape)))
+                return dict(status="violated", fails=fails)
+    return dict(status="ok", fails=[])
+
+
+def case_fn(c):
+    if c.get("kind") == "differential":
+        return differential_case(c)
+    return cases.case_fn(c)
 
 
 def connectivity_fallback(chk):
@@ -63,7 +129,7 @@ def main():
     chk.run_contracts("contracts.c11", names=["NetworkGraph._add_matrix_delay@kernel-order"], fallback={"*": lambda: []})
     _cases = families(chk.tier, chk.seed)
     _results = driver.run_family(
-        chk, "population-vs-explicit-network", _cases, cases.case_fn, site="C16/population",
+        chk, "population-vs-explicit-network", _cases, case_fn, site="C16/population",
         rule="populations of n = 1,2,3,5 units with heterogeneous per-unit parameters AND initial states; signed, sparse, "
              "non-symmetric, non-square weight matrices between one or two populations; scalar weights (w * sum_j source_j); a "
              "one-unit hub with params; Connectivity delays (discrete, incl. 0.3/0.1) and gamma kernels ((d,s) with round-up and "
@@ -71,7 +137,7 @@ def main():
              "edges) against a fine-grid reference; for plain matrices, scalar weights and gamma kernels also the explicit network built through PyRates (scalar edges, vectorize off); each unit's Euler trajectory against the spec of the explicit network with one node per unit and "
              "one scalar edge per non-zero matrix entry; distinct = (scenario, seed)",
         sample_of=lambda c: {k: v for k, v in c.items() if k != "features"})
-    driver.run_sequences(chk, "population-vs-explicit-network-in-sequence", _cases, _results, cases.case_fn, site="C16/population",
+    driver.run_sequences(chk, "population-vs-explicit-network-in-sequence", [c_ for c_ in _cases if c_.get("kind") != "differential"], _results, case_fn, site="C16/population",
                          limit=20 if chk.tier == "quick" else 120, seed=chk.seed)
     rc = chk.finish(
         explanation="Bounded: unit-by-unit comparison of run() of the population circuit with the reference semantics of the "
